@@ -2,6 +2,7 @@ package c03
 
 import (
 	"fmt"
+	"time"
 
 	"verif/core"
 )
@@ -27,7 +28,22 @@ func pairs(r *core.Run) bool {
 			jobs = append(jobs, job{s.Name, en})
 		}
 	}
+	// the three sub-parts share what this part got of the budget
+	partEnd := cur.end
+	anyCut := false
+	share := func(frac float64) {
+		if cur.cut.Load() {
+			anyCut = true
+		}
+		cur = &partBudget{end: time.Now().Add(time.Duration(float64(time.Until(partEnd)) * frac))}
+	}
+	defer func() {
+		if anyCut {
+			cur.cut.Store(true)
+		}
+	}()
 	// P1
+	share(0.25)
 	ok := r.Parallel(int64(len(jobs)), 1, func(_ int, lo, hi int64) {
 		for ji := lo; ji < hi; ji++ {
 			j := jobs[ji]
@@ -51,7 +67,7 @@ func pairs(r *core.Run) bool {
 				// positions of the second fault: every log entry of the execution under the first fault (+1 never reached)
 				for k2 := from; k2 <= len(o1.Log)+len(o1.AfterAbort); k2++ {
 					for _, kind := range []string{"throw", "pval"} {
-						if r.Expired() {
+						if expired(r) {
 							return
 						}
 						c := Call{Entry: j.entry, Shape: j.shape, Faults: []Fault{f1, {kind, k2}}}
@@ -62,10 +78,11 @@ func pairs(r *core.Run) bool {
 			}
 		}
 	})
-	r.Set("pairs_two_faults_in_one_call", ok)
+	r.Set("pairs_two_faults_in_one_call_complete", ok && !cur.cut.Load())
 	if !ok {
 		return false
 	}
+	share(0.45)
 	// P2: faulted call, then every unfaulted call
 	var unfaulted []Call
 	for _, s := range allShapes {
@@ -80,7 +97,7 @@ func pairs(r *core.Run) bool {
 			for _, f := range reducedFaults(j.entry, j.shape) {
 				c := Call{Entry: j.entry, Shape: j.shape, Faults: []Fault{f}}
 				for lo := 0; lo < len(unfaulted); lo += 24 {
-					if r.Expired() {
+					if expired(r) {
 						return
 					}
 					hi := lo + 24
@@ -92,10 +109,11 @@ func pairs(r *core.Run) bool {
 			}
 		}
 	})
-	r.Set("pairs_faulted_then_every_unfaulted_call", ok)
+	r.Set("pairs_faulted_then_every_unfaulted_call_complete", ok && !cur.cut.Load())
 	if !ok {
 		return false
 	}
+	share(1)
 	// P3: two faulted calls
 	var seconds []Call
 	for _, s := range []string{"generator", "async", "forofnested", "nestedrun", "withrefs"} {
@@ -112,7 +130,7 @@ func pairs(r *core.Run) bool {
 			for _, f := range reducedFaults(j.entry, j.shape) {
 				c := Call{Entry: j.entry, Shape: j.shape, Faults: []Fault{f}}
 				for _, c2 := range seconds {
-					if r.Expired() {
+					if expired(r) {
 						return
 					}
 					t.do([]Call{c, c2, {Entry: c2.Entry, Shape: c2.Shape}})
@@ -120,6 +138,6 @@ func pairs(r *core.Run) bool {
 			}
 		}
 	})
-	r.Set("pairs_two_faulted_calls", fmt.Sprintf("complete=%v, second calls=%d", ok, len(seconds)))
+	r.Set("pairs_two_faulted_calls", fmt.Sprintf("complete=%v, second calls=%d", ok && !cur.cut.Load(), len(seconds)))
 	return ok
 }
